@@ -267,13 +267,19 @@ func calibrateBudget() int {
 
 // ---- oracle for CallGraph.Analysis ------------------------------------------------------------------
 
-func checkCallGraph(g genGraph, root string, lookup bool) engine.Result {
+func checkCallGraph(g genGraph, root string, lookup bool, afterApi ...bool) engine.Result {
 	B := calibrateBudget()
 	deps := g.Model.ToDeps()
+	after := len(afterApi) > 0 && afterApi[0]
+	if after && len(g.Model.Methods) > 0 {
+		// the other entry point of the package ran before in this process (`coca api`, then `coca call`)
+		m := g.Model.Methods[len(g.Model.Methods)-1]
+		call.NewCallGraph().AnalysisByFiles([]api_domain.RestAPI{{Uri: "/pre", HttpMethod: "GET", PackageName: m.Pkg, ClassName: m.Class, MethodName: m.Name}}, deps, nil)
+	}
 	dot := call.NewCallGraph().Analysis(root, deps, lookup)
 	res := engine.Result{
-		InputKey: g.Model.String() + "|root=" + root + fmt.Sprint("|lookup=", lookup),
-		Input:    map[string]interface{}{"model": strings.Split(strings.TrimSpace(g.Model.String()), "\n"), "root": root, "lookup": lookup},
+		InputKey: g.Model.String() + "|root=" + root + fmt.Sprint("|lookup=", lookup, "|after-api=", after),
+		Input:    map[string]interface{}{"model": strings.Split(strings.TrimSpace(g.Model.String()), "\n"), "root": root, "lookup": lookup, "after_an_api_graph_in_the_same_process": after},
 	}
 	union, entries := refCalls(g.Model, nil)
 	R := reach(union, root)
@@ -369,7 +375,8 @@ func c03GenCall(o graphOpts) func(c *engine.C) engine.Case {
 			root = g.Names[ri-1]
 		}
 		lookup := c.Bool("lookup")
-		return func() engine.Result { return checkCallGraph(g, root, lookup) }
+		afterApi := c.Bool("after-an-api-graph-in-the-same-process")
+		return func() engine.Result { return checkCallGraph(g, root, lookup, afterApi) }
 	}
 }
 
